@@ -39,8 +39,12 @@ impl Decoder for Codec {
     type Error = io::Error;
 
     fn decode(&mut self, src: &mut BytesMut) -> Result<Option<Self::Item>, Self::Error> {
-        let Ok((len, rest)) = unsigned_varint::decode::usize(&src[..]) else {
-            return Ok(None);
+        let (len, rest) = match unsigned_varint::decode::usize(&src[..]) {
+            Ok(res) => res,
+            // Length prefix is not complete yet
+            Err(unsigned_varint::decode::Error::Insufficient) => return Ok(None),
+            // Length prefix is not a valid varint and never will be
+            Err(e) => return Err(io::Error::other(e)),
         };
 
         let varint_len = src.len() - rest.len();
